@@ -168,7 +168,8 @@ def v3_spec(max_events=80, max_n=30, with_logs=True, tids=None, records_strategy
     recs = records_strategy if records_strategy is not None else st.one_of(
         st.lists(S.record64(), max_size=max_events), st.lists(S.record64(), min_size=min(4, max_events), max_size=min(16, max_events)),
         *([big_records()] if max_events >= 80 else []))
-    codes_text = st.text(st.characters(min_codepoint=0x20, max_codepoint=0x7e), max_size=40).map(lambda s: s + '\n')
+    codes_line = st.text(st.characters(min_codepoint=0x20, max_codepoint=0x7e), max_size=40)
+    codes_text = st.one_of(codes_line.map(lambda s: s + '\n'), codes_line, st.tuples(codes_line, codes_line).map(lambda t: t[0] + '\n' + t[1]))
 
     def with_table(table):
         logrec = _logs.raw_record(table, tids=tids)
